@@ -403,6 +403,8 @@ class Evaluator:
             if op in ("/", "%") and y != 0:
                 q = abs(x) // abs(y) * (1 if (x >= 0) == (y >= 0) else -1)      # Rust: truncation towards zero
                 return ("lit", q if op == "/" else x - q * y)
+        if getattr(self, "vecs", False) and op in ("==", "!=") and a[0] == "lit" and b[0] == "lit" and isinstance(a[1], str) and isinstance(b[1], str):
+            return mk_bool((a[1] == b[1]) == (op == "=="))          # two literal texts
         if getattr(self, "vecs", False) and op in ("==", "!=") and closed_value(a) and closed_value(b) and (a[0] == "v" or b[0] == "v" or a[0] == "array" or b[0] == "array"):
             # structural (derived) equality of two fully concrete values; distinct symbols stand for distinct values
             same = norm_value(a) == norm_value(b)
@@ -901,21 +903,21 @@ class Evaluator:
             if method in ("new", "with_capacity", "default") and re.search(r"\bvec::Vec\b", c) and len(args) <= 1:
                 yield s, ("array", [])
                 return
-            if method == "push" and seq0 is not None and len(args) == 2 and getattr(self, "recv_local", None) and re.search(r"\bvec::Vec\b", c):
+            if method == "push" and seq0 is not None and len(args) == 2 and getattr(self, "recv_path", None) and re.search(r"\bvec::Vec\b", c):
                 s2 = s.fork()
-                s2.env[self.recv_local] = ("array", list(seq0) + [args[1]])
+                self.put(s2, self.recv_path, ("array", list(seq0) + [args[1]]))
                 yield s2, ("unit",)
                 return
-            if method in ("extend", "extend_from_slice", "append") and seq0 is not None and len(args) == 2 and getattr(self, "recv_local", None) and re.search(r"\bvec::Vec\b|Extend", c):
+            if method in ("extend", "extend_from_slice", "append") and seq0 is not None and len(args) == 2 and getattr(self, "recv_path", None) and re.search(r"\bvec::Vec\b|Extend", c):
                 more = self.as_seq(args[1])
                 s2 = s.fork()
-                s2.env[self.recv_local] = ("array", list(seq0) + list(more)) if more is not None else ("unknown", "extended by an unknown sequence")
+                self.put(s2, self.recv_path, ("array", list(seq0) + list(more)) if more is not None else ("unknown", "extended by an unknown sequence"))
                 yield s2, ("unit",)
                 return
-            if method in ("sort_by", "sort_unstable_by") and seq0 is not None and len(args) == 2 and args[1][0] == "closure" and len(args[1]) == 4 and getattr(self, "recv_local", None):
+            if method in ("sort_by", "sort_unstable_by") and seq0 is not None and len(args) == 2 and args[1][0] == "closure" and len(args[1]) == 4 and getattr(self, "recv_path", None):
                 import functools
                 bad = []
-                rl = self.recv_local          # (the comparisons below evaluate other method calls, which overwrite the attribute)
+                rl = self.recv_path          # (the comparisons below evaluate other method calls, which overwrite the attribute)
 
                 def cmpf(x, y):
                     rs = list(self.apply_closure(args[1], [x, y], s))
@@ -925,7 +927,7 @@ class Evaluator:
                     return 0
                 out = sorted(seq0, key=functools.cmp_to_key(cmpf))          # stable, like slice::sort_by
                 s2 = s.fork()
-                s2.env[rl] = ("array", out) if not bad else ("unknown", "sorted with a comparison that does not fold")
+                self.put(s2, rl, ("array", out) if not bad else ("unknown", "sorted with a comparison that does not fold"))
                 yield s2, ("unit",)
                 return
             if method == "position" and seq0 is not None and len(args) == 2 and args[1][0] == "closure" and len(args[1]) == 4:
@@ -938,9 +940,23 @@ class Evaluator:
                         return
                 yield s, none
                 return
-            if method in ("reverse", "clear") and seq0 is not None and len(args) == 1 and getattr(self, "recv_local", None) and re.search(r"\bvec::Vec\b|slice", c):
+            if method == "retain" and seq0 is not None and len(args) == 2 and args[1][0] == "closure" and len(args[1]) == 4 and getattr(self, "recv_path", None):
+                rl = self.recv_path
+                keep, okk = [], True
+                for x in seq0:
+                    rs = list(self.apply_closure(args[1], [x], s))
+                    if len(rs) != 1 or rs[0][1][0] != "bool":
+                        okk = False
+                        break
+                    if rs[0][1][1]:
+                        keep.append(x)
                 s2 = s.fork()
-                s2.env[self.recv_local] = ("array", list(reversed(seq0)) if method == "reverse" else [])
+                self.put(s2, rl, ("array", keep) if okk else ("unknown", "retain with a predicate that does not fold"))
+                yield s2, ("unit",)
+                return
+            if method in ("reverse", "clear") and seq0 is not None and len(args) == 1 and getattr(self, "recv_path", None) and re.search(r"\bvec::Vec\b|slice", c):
+                s2 = s.fork()
+                self.put(s2, self.recv_path, ("array", list(reversed(seq0)) if method == "reverse" else []))
                 yield s2, ("unit",)
                 return
             if method in ("len", "is_empty") and seq0 is not None and len(args) == 1:
@@ -1253,6 +1269,8 @@ class Evaluator:
                 while rl.get("k") == "AddrOf" or (rl.get("k") == "Unary" and rl.get("op") == "*"):
                     rl = rl.get("e") or rl.get("a")
                 self.recv_local = rl.get("name") if rl.get("k") == "Path" and rl.get("res") == "local" else None
+                self.recv_path = self.recv_path_of(e["recv"])
+                rpath = self.recv_path
                 self.cur_ty = self.node_type(e)
                 if self.call_hook:
                     r = self.call_hook(callee, [recv] + args, s)
@@ -1260,6 +1278,8 @@ class Evaluator:
                         if isinstance(r, dict):
                             s2 = s.fork()
                             s2.env.update(r.get("env", {}))
+                            if "put" in r and rpath is not None:
+                                self.put(s2, rpath, r["put"])          # the call changes its receiver (a local or a field of a tracked record)
                             yield s2, r["val"]
                         elif isinstance(r, list):
                             for cond, val in r:
@@ -1268,6 +1288,16 @@ class Evaluator:
                             yield s, r
                         continue
                 if callee in self.inline:
+                    if getattr(self, "vecs", False) and rpath is not None and isinstance(recv, tuple) and recv and recv[0] == "rec":
+                        hh = self.F.hir.get(callee)
+                        p0 = (hh or {}).get("params", [{}])[0] if hh and hh.get("params") else {}
+                        t0 = ""
+                        try:
+                            t0 = self.F.crates[hh["_crate"]]["types"][p0.get("t")]
+                        except (KeyError, IndexError, TypeError):
+                            pass
+                        if t0.startswith("&mut "):
+                            self._writeback = rpath
                     yield from self.inline_call(callee, [recv] + args, s)
                     continue
                 if self.ints:
@@ -1275,10 +1305,41 @@ class Evaluator:
                     if rs:
                         yield from rs
                         continue
-                if getattr(self, "vecs", False) and self.recv_local and isinstance(recv, tuple) and recv[0] in ("array", "iterv") and method not in READ_ONLY_METHODS:
+                if getattr(self, "vecs", False) and rpath is not None and isinstance(recv, tuple) and recv[0] in ("array", "iterv") and method not in READ_ONLY_METHODS:
                     s = s.fork()
-                    s.env[self.recv_local] = ("unknown", "method %s of a tracked vector is not modelled" % method)
+                    self.put(s, rpath, ("unknown", "method %s of a tracked vector is not modelled" % method))
                 yield s, ("call", callee, [recv] + args)
+
+    def put(self, s, path, value):
+        """store a value at a receiver path (local, fields..): the local itself, or a field of the record it holds"""
+        name, fields = path
+
+        def upd(v, fs):
+            if not fs:
+                return value
+            if not (isinstance(v, tuple) and v and v[0] == "rec"):
+                return ("unknown", "write into an unknown record")
+            d = dict(v[1])
+            d[fs[0]] = upd(d.get(fs[0], ("unknown", "absent field")), fs[1:])
+            return ("rec", d) + tuple(v[2:])
+        s.env[name] = upd(s.env.get(name), list(fields))
+
+    @staticmethod
+    def recv_path_of(e):
+        """(local, (field, ..)) of a receiver expression `x`, `x.f`, `self.f.g` (through borrows and derefs); None otherwise"""
+        fields = []
+        while isinstance(e, dict):
+            k = e.get("k")
+            if k in ("AddrOf", "DropTemps", "Paren") or (k == "Unary" and e.get("op") == "*"):
+                e = e.get("e") or e.get("a")
+            elif k == "Field":
+                fields.append(e.get("name"))
+                e = e.get("e")
+            elif k == "Path" and e.get("res") == "local":
+                return (e["name"], tuple(reversed(fields)))
+            else:
+                return None
+        return None
 
     def inline_call(self, callee, args, s):
         """evaluate the callee's body with the actual arguments; path conditions flow through, the callee's return value is the result"""
@@ -1298,8 +1359,15 @@ class Evaluator:
             outer_crate = getattr(self, "crate", None)
             self.crate = h.get("_crate", outer_crate)
             try:
+                wb = getattr(self, "_writeback", None)
+                self._writeback = None
                 for s2, v in self.ev(h["body"], sub):
-                    yield State(s.env, s2.conds, s.ret, s.brk), (s2.ret if s2.ret is not None else v)
+                    out = State(s.env, s2.conds, s.ret, s.brk)
+                    if wb is not None and "self" in s2.env:
+                        # a `&mut self` method called on a tracked record: what it left in `self` is the receiver's new value
+                        out = out.fork()
+                        self.put(out, wb, s2.env["self"])
+                    yield out, (s2.ret if s2.ret is not None else v)
             finally:
                 self.crate = outer_crate
         finally:
